@@ -39,6 +39,10 @@ structure ReadIn where
   code : String
 deriving Repr, Inhabited, DecidableEq
 
+/-- what `read` makes of a file: `dg` stands for `sha256(bytes).hexdigest()[:digestLen]`, `cg` for the text generated for the
+    content (pysbml + code generation) — both functions of the bytes alone -/
+def readInOf (dg cg : String → String) (stem content : String) : ReadIn := ⟨stem, dg content, cg content⟩
+
 /-- `out_name` of `read`, assembled from the generated pieces -/
 def outName (d : ReadIn) : String :=
   moduleNameParts.foldl (fun acc p => acc ++ match p with
